@@ -1364,6 +1364,9 @@ class sptensor:
         # In the sparse case, it is most efficient to do a series of TTV operations
         # rather than forming the Khatri-Rao product.
 
+        if n not in range(self.ndims):
+            assert False, "n must be a mode of the tensor"
+
         U = get_mttkrp_factors(U, n, self.ndims)
 
         if n == 0:
@@ -1371,8 +1374,10 @@ class sptensor:
         else:
             R = U[0].shape[1]
 
-        if not all(U[i].shape[1] == R for i in range(self.ndims) if i != n):
-            assert False, "All factor matrices must have the same number of columns"
+        if not all(
+            U[i].shape == (self.shape[i], R) for i in range(self.ndims) if i != n
+        ):
+            assert False, "Factor matrices must be of size (shape[i], R)"
 
         V = np.zeros((self.shape[n], R), order=self.order)
         for r in range(R):
